@@ -240,6 +240,76 @@ def _s1b(program, res):
         res.fail_at("C04-S1", stub, "cache-key-mismatch", f"CTE cache is read and written with different keys {sorted(keys)}")
 
 
+def _s1d(program, res):
+    """a step's ops_key may be None ("no reliable identity: never share").  Wherever another step's key is turned into text (to build a
+    parent's key, a cache key, …) that must happen under a test that the key is not None: otherwise the marker becomes the string
+    'None' and two different such sub-steps give their parents the same key"""
+    mods = [program.module(n) for n in ("sql_model", "near_sql", "view_representations", "SQLite", "PostgreSQL", "MySQL", "BigQuery", "SparkSQL", "db_model")
+            if n in program.modules]
+    n_sites = 0
+    for f in program.all_functions():
+        if f.module not in mods or f.parent is not None:
+            continue
+        # locals bound to some <x>.ops_key
+        key_vars = {st.targets[0].id for st in ast.walk(f.node) if isinstance(st, ast.Assign) and len(st.targets) == 1 and isinstance(st.targets[0], ast.Name)
+                    and isinstance(st.value, ast.Attribute) and st.value.attr == "ops_key"}
+        parents = {}
+        for n_ in ast.walk(f.node):
+            for ch in ast.iter_child_nodes(n_):
+                parents[id(ch)] = n_
+
+        def textualised(node):
+            """is this expression converted to text here?  (f-string value, str(), '+' with a string constant)"""
+            p_ = parents.get(id(node))
+            while p_ is not None and isinstance(p_, (ast.Attribute,)):
+                p_ = parents.get(id(p_))
+            if isinstance(p_, ast.FormattedValue):
+                return p_
+            if isinstance(p_, ast.Call) and dotted_name(p_.func) in ("str", "repr") and node in p_.args:
+                return p_
+            if isinstance(p_, ast.BinOp) and isinstance(p_.op, ast.Add) and any(isinstance(x, ast.Constant) and isinstance(x.value, str) for x in (p_.left, p_.right)):
+                return p_
+            return None
+
+        def none_guarded(node, what_txt):
+            x = node
+            while id(x) in parents:
+                p_ = parents[id(x)]
+                if isinstance(p_, (ast.If, ast.IfExp)) and x is not p_.test and f"{what_txt} is not None" in unparse(p_.test) and (
+                        (isinstance(p_, ast.If) and any(x is b or _contains(b, x) for b in p_.body)) or (isinstance(p_, ast.IfExp) and x is p_.body)):
+                    return True
+                if isinstance(p_, ast.comprehension) or isinstance(p_, (ast.ListComp, ast.GeneratorExp, ast.SetComp)):
+                    comp = p_ if not isinstance(p_, ast.comprehension) else parents.get(id(p_))
+                    gens = getattr(comp, "generators", [])
+                    if any(f"{what_txt} is not None" in unparse(i) for g_ in gens for i in g_.ifs):
+                        return True
+                x = p_
+            return False
+
+        for node in ast.walk(f.node):
+            is_attr = isinstance(node, ast.Attribute) and node.attr == "ops_key" and isinstance(node.ctx, ast.Load)
+            is_var = isinstance(node, ast.Name) and node.id in key_vars and isinstance(node.ctx, ast.Load)
+            if not (is_attr or is_var):
+                continue
+            tx = textualised(node)
+            if tx is None:
+                continue
+            n_sites += 1
+            what_txt = unparse(node)
+            if none_guarded(node, what_txt):
+                res.ok("C04-S1", f"{f.qualname}: `{what_txt}` is turned into text only under `{what_txt} is not None`")
+            else:
+                res.fail_at("C04-S1", f, f"missing-key-textualised:{what_txt}",
+                            f"{f.qualname} turns `{what_txt}` into text (`{unparse(tx)[:60]}`) without testing it for None: a sub-step without a key "
+                            f"(convert_records, SQL nodes: 'never share') contributes the text 'None', so two identical steps over two *different* such "
+                            f"sub-steps get equal keys and CTE elimination reads the first one twice", tx)
+    res.expect_count("C04-S1", "places where a step key is turned into text", n_sites, 1)
+
+
+def _contains(root, x):
+    return any(n_ is x for n_ in ast.walk(root))
+
+
 def _s1c(program, res):
     f = program.method("sql_model", "SQLModel", "extend_to_near_sql", inherited=False)
     res.analysed(f)
@@ -534,6 +604,7 @@ def run(program, res, tier):
     res.rule("C04-S3", "format options reach only layout: whitespace, comments, comma layout, WITH-vs-nested")
     _s1a(program, res)
     _s1b(program, res)
+    _s1d(program, res)
     _s1c(program, res)
     _s2(program, res)
     _s3(program, res)
